@@ -17,6 +17,11 @@ CHECKS = {
   note="Kernel-checked for the runtime helpers; `len as i64` assumes < 2^63 elements. Tie: exhaustive small grids + extremes in every position + random, against the real stdlib/core functions; oracle: CPython itself. dict_get KeyError text: tie + oracle only.",
   technique="Lean 4 proof (Int64 loops refine unbounded-integer reference, simulation relation under saturation) + correspondence + CPython oracle",
   ref="C05"),
+ "C06": dict(
+  text="Lean 4 theorems over the model of the const evaluator (eval_const_expr: literals, const references, unary/binary operators, string concatenation, membership, indexing, slicing with all bound combinations; eval_const_by_name's in-progress stack) and a run-time semantics of the same expressions built from the C04/C05 kernels: `const_value_sound` — by structural induction over initializers of any shape and depth, whenever the compiler records a value for an initializer, evaluating the same expression in a function body yields exactly that value (incl. short-circuit and/or, unknown slice bounds); `index_error_agrees` / `runtime_index_error_reported` / `slice_step_zero_agrees` — compile-time IndexError / zero-step ValueError coincide with the run-time ones; `static_fold_sound` — concat! folding of &'static str chains denotes the run-time concatenation; `ok_implies_no_repeat`, `cycle_is_rejected`, `never_out_of_fuel`, `resolution_terminates` — for every dependency graph the resolution ends with a verdict and a reachable cycle is never accepted.",
+  note="Float arithmetic is executed, not reasoned about. Types (incl. the syntactic `**` rule) and error classes are tied, not proved. Emission of consts as Rust const expressions is covered by the compiled-const stream only; most operators in const context do not build at all (C02). Two fix: commits (unknown slice bound treated as omitted; nested static string addition not folded).",
+  technique="Lean 4 proof (structural induction over initializer expressions; invariants of the dependency DFS with a decreasing measure) + checker / compiled-program correspondence + value-agreement oracle",
+  ref="C06"),
  "C07": dict(
   text="Lean 4 theorems by structural induction over numeric expression trees of any depth (int/float literals, typed variables, unary minus, parentheses, all 13 arithmetic/comparison operators): the checker's type, the IR type assigned by lowering, and the Rust type of the shape the emitter produces (helper call / method / infix with the planned conversions) all equal the documented table; the emitter's IR-based exponent classification equals the checker's AST-based one; `x: int = a / b` is always rejected; an accepted annotated binding never changes numeric kind. The finite policy table is proved entry by entry and also compared exhaustively with the real functions.",
   note="Rust typing of emitted shapes is a model (helper signatures, i64::pow, f64::powf); rustc is not run here. Tie: real parser -> TypeChecker expr_types, AstLowering IR types, determine_binop_plan, on exhaustive depth<=2 grids + random depth<=6; binding positions let/return/compound proved+tied, `argument` is a recorded finding (arguments are not type-checked).",
